@@ -36,6 +36,7 @@ func cmdRun(args []string) {
 	fs.StringVar(&opts.solverBin, "solver", opts.solverBin, "solver binary")
 	fs.IntVar(&opts.maxPaths, "maxpaths", opts.maxPaths, "max paths")
 	maxProg := fs.Bool("maxprog", false, "maximal progress timers")
+	frozen := fs.Bool("frozen", false, "frozen clock")
 	smtlog := fs.String("smtlog", "", "log solver input of worker 0 to file")
 	fs.Parse(args)
 	rest := fs.Args()
@@ -55,13 +56,16 @@ func cmdRun(args []string) {
 	}
 	fmt.Printf("loaded in %.1fs\n", e.loadS)
 	for _, hn := range rest[1:] {
-		h := &harnessSpec{name: hn, pkg: pkg, preemptionBound: *pb, maximalProgress: *maxProg, maxTicks: 3}
+		h := &harnessSpec{name: hn, pkg: pkg, preemptionBound: *pb, maximalProgress: *maxProg, maxTicks: 3, frozenClock: *frozen}
 		res := e.explore(h)
 		fmt.Printf("== %s: paths=%d maxdepth=%d wall=%.2fs violations=%d inconclusive=%d\n", hn, res.paths, res.maxDepth, res.wall, len(res.violations), len(res.inconcl))
 		for _, m := range res.inconcl {
 			fmt.Println("  INCONCLUSIVE:", m)
 		}
-		for _, v := range res.violations {
+		for i, v := range res.violations {
+			if i >= 4 {
+				break
+			}
 			b, _ := json.Marshal(v.Nondet)
 			fmt.Printf("  VIOLATION %s: %s @ %s\n    nondet=%s\n    sched=%v\n", v.Kind, v.Msg, v.Pos, b, v.Sched)
 		}
